@@ -38,12 +38,23 @@ func runC17(c c17Case) *Violation {
 		scale = 1
 	}
 	T := time.Duration(c.TimeoutMs*scale) * time.Millisecond
+	bigResponse := c.Factor < 1.5
+	if c.Scenario == "slow_reader_big_transfer" {
+		// the pause spans three ping intervals of the writing side yet stays well below half the timeout; server pings are on
+		// so that the client hears from the server as soon as the path resumes (a 16 MiB request occupies the server's reader)
+		if c.PingDiv < 8 {
+			c.PingDiv = 8
+		}
+		if c.ServerPingMs < 0 || c.ServerPingMs > c.TimeoutMs/8 {
+			c.ServerPingMs = c.TimeoutMs / 8
+		}
+	}
 	ping := T / time.Duration(c.PingDiv)
 	sp := time.Duration(c.ServerPingMs*scale) * time.Millisecond
 	if c.ServerPingMs < 0 {
 		sp = -1
 	}
-	opts := RigOpts{ClientTimeout: T, ClientPing: ping, BackoffMin: 10 * time.Millisecond, BackoffMax: 40 * time.Millisecond, WithErrors: true}
+	opts := RigOpts{Reverse: c.Scenario == "long_blackhole_then_heal", ClientTimeout: T, ClientPing: ping, BackoffMin: 10 * time.Millisecond, BackoffMax: 40 * time.Millisecond, WithErrors: true}
 	rig, err := newRigServerPing(opts, sp)
 	if err != nil {
 		return nil
@@ -119,6 +130,71 @@ func runC17(c c17Case) *Violation {
 		items, closed := drain(s.Ch, dur+3*time.Second+T)
 		if !closed || len(items) != 8 {
 			return violf("stream-broken-by-keepalive", "paced stream over %v delivered %d of 8 values (closed=%v) on a healthy link", dur, len(items), closed)
+		}
+		return healthy()
+	case "long_blackhole_then_heal":
+		// silence for several timeouts while every redial is refused, then the path heals: the client must come back
+		rig.Proxy.SetPolicy("reject")
+		rig.Proxy.CutAll("blackhole")
+		time.Sleep(time.Duration((2 + c.Factor) * float64(T)))
+		rig.Proxy.SetPolicy("forward")
+		bound := 5*T + 2*time.Second
+		var last error
+		for deadline := time.Now().Add(bound); time.Now().Before(deadline); {
+			if last = rig.Probe(cl, time.Second); last == nil {
+				return nil
+			}
+			time.Sleep(10 * time.Millisecond)
+		}
+		return violf("no-recovery-after-silence", "the path was silent for %v (redials refused) and then healed, but no call succeeded within %v afterwards (last error: %v)", time.Duration((2+c.Factor)*float64(T)), bound, last)
+	case "slow_reader_big_transfer":
+		// a healthy but momentarily slow link: a large response is in transit while nothing is drained for three ping intervals
+		plan := Plan{Gate: true, Size: 16 << 20}
+		writerPing := sp
+		if !bigResponse {
+			plan = Plan{Gate: true, Junk: strings.Repeat("j", 16<<20)}
+			writerPing = ping
+		}
+		dir := "s2c"
+		if !bigResponse {
+			dir = "c2s"
+		}
+		// the connection has been up for a while (keepalives in both directions have started) when the transfer begins
+		time.Sleep(writerPing + writerPing/2)
+		// the path pauses once 2 MiB of the large message have passed, i.e. while its writer is in the middle of it
+		armed := rig.Proxy.StallAfterBytes(dir, 2<<20)
+		p := rig.Go(cl, "call", rig.Tok("big"), plan)
+		go func() {
+			if rig.W.WaitStarted(p.Tok, 10*time.Second) {
+				rig.W.Release(p.Tok)
+			}
+		}()
+		select {
+		case <-armed:
+		case <-p.Done:
+			return violf("long-call-failed", "a call carrying 16 MiB ended before 2 MiB of it had crossed the link: %v", p.Err)
+		case <-time.After(10 * time.Second):
+			return nil // the transfer never got under way within the allowance: nothing to judge
+		}
+		pause := 3 * writerPing
+		if pause > T/2 {
+			pause = T / 2
+		}
+		time.Sleep(pause)
+		rig.Proxy.Unstall()
+		select {
+		case <-p.Done:
+		case <-time.After(5*time.Second + T):
+			return violf("long-call-hangs", "a call carrying 16 MiB over a link that paused for %v (timeout %v, ping %v, server ping %v) never returned", pause, T, ping, sp)
+		}
+		if p.Err != nil {
+			return violf("long-call-failed", "a call carrying 16 MiB over a link that paused for %v (timeout %v, ping %v, server ping %v) failed: %v", pause, T, ping, sp, p.Err)
+		}
+		if v := p.CheckOwn(); v != nil {
+			return v
+		}
+		if err := rig.Probe(cl, 3*time.Second+T); err != nil {
+			return violf("call-after-idle-failed", "a call after the slow transfer failed: %v", err)
 		}
 		return healthy()
 	case "long_call_after_redial":
@@ -300,12 +376,12 @@ func c17NT(c c17Case) (bool, []string) {
 	return c.Factor > 1 || strings.HasPrefix(c.Scenario, "blackhole"), cl
 }
 
-const c17Rule = "client timeout 600-1500 ms with ping = timeout/4..timeout/8, server ping off or timeout/8..timeout/2.2; scenarios: one call lasting 0.1-3 x timeout, a call plus a paced stream, idleness of 0.5-3 x timeout followed by a call, a paced stream lasting 1.5-3 x timeout, blackhole with three calls pending, blackhole while idle followed by a call. Scenarios of the fixed grid run concurrently (each on its own server, proxy and client). Non-trivial = duration above the timeout, or a blackhole; distinct by descriptor hash"
+const c17Rule = "client timeout 600-1500 ms with ping = timeout/4..timeout/8, server ping off or timeout/8..timeout/2.2; scenarios: one call lasting 0.1-3 x timeout, a call plus a paced stream, idleness of 0.5-3 x timeout followed by a call, a paced stream lasting 1.5-3 x timeout, blackhole with three calls pending, blackhole while idle followed by a call, steady notifications, a long call right after a redial, silence of 2-5 x timeout with redials refused followed by a healed path (client with a reverse handler), a 16 MiB request or response whose path pauses for three ping intervals of its writer (< timeout/2) in the middle of the transfer. Scenarios of the fixed grid run concurrently (each on its own server, proxy and client). Non-trivial = duration above the timeout, or a blackhole; distinct by descriptor hash"
 
 func TestC17(t *testing.T) {
 	rec := NewRec("C17", c17Rule)
 	defer rec.Finish(t)
-	rec.RequireClass("scenario_long_call_after_redial", "scenario_steady_notifications", "scenario_blackhole_fresh_steady", "scenario_long_call", "scenario_idle_then_call", "scenario_stream", "scenario_mixed", "scenario_blackhole_pending", "scenario_blackhole_idle", "server_ping_off", "server_ping_on", "longer_than_timeout")
+	rec.RequireClass("scenario_long_blackhole_then_heal", "scenario_slow_reader_big_transfer", "scenario_long_call_after_redial", "scenario_steady_notifications", "scenario_blackhole_fresh_steady", "scenario_long_call", "scenario_idle_then_call", "scenario_stream", "scenario_mixed", "scenario_blackhole_pending", "scenario_blackhole_idle", "server_ping_off", "server_ping_on", "longer_than_timeout")
 	var mu sync.Mutex
 	var firstV *Violation
 	var firstC c17Case
@@ -328,7 +404,7 @@ func TestC17(t *testing.T) {
 		var cases []c17Case
 		k := 0
 		seed := envInt("VERIF_SEED", 1)
-		for _, sc := range []string{"long_call", "mixed", "idle_then_call", "stream", "blackhole_pending", "blackhole_idle", "blackhole_fresh_steady", "long_call_after_redial", "steady_notifications"} {
+		for _, sc := range []string{"long_call", "mixed", "idle_then_call", "stream", "blackhole_pending", "blackhole_idle", "blackhole_fresh_steady", "long_call_after_redial", "steady_notifications", "long_blackhole_then_heal", "slow_reader_big_transfer"} {
 			for _, f := range []float64{0.3, 1.6, 3.0} {
 				for _, spOn := range []bool{false, true} {
 					k++
@@ -367,7 +443,7 @@ func TestC17(t *testing.T) {
 	rec.Rapid(t, "rapid", func(rt *rapid.T) {
 		T := rapid.SampledFrom([]int{600, 800, 1000, 1500}).Draw(rt, "timeout")
 		c := c17Case{TimeoutMs: T, PingDiv: rapid.IntRange(4, 8).Draw(rt, "pingdiv"), ServerPingMs: -1,
-			Scenario: rapid.SampledFrom([]string{"long_call", "mixed", "idle_then_call", "stream", "blackhole_pending", "blackhole_idle", "blackhole_fresh_steady", "long_call_after_redial", "steady_notifications"}).Draw(rt, "scenario"),
+			Scenario: rapid.SampledFrom([]string{"long_call", "mixed", "idle_then_call", "stream", "blackhole_pending", "blackhole_idle", "blackhole_fresh_steady", "long_call_after_redial", "steady_notifications", "long_blackhole_then_heal", "slow_reader_big_transfer"}).Draw(rt, "scenario"),
 			Factor:   float64(rapid.IntRange(1, 30).Draw(rt, "factor10")) / 10}
 		if rapid.Bool().Draw(rt, "serverping") {
 			c.ServerPingMs = int(float64(T) / (2.2 + float64(rapid.IntRange(0, 60).Draw(rt, "spdiv10"))/10))
